@@ -712,6 +712,12 @@ func (ev *eofEval) evalCond(v ssa.Value, depth int) int {
 				return 0
 			}
 		}
+		// a predicate method of the parser (receiver only, boolean result, nothing but token tests): run it
+		if callee := x.Common().StaticCallee(); callee != nil && isModuleSSA(callee) && len(x.Common().Args) == 1 && depth < 4 {
+			if r := ev.evalPredicate(callee, depth); r >= 0 {
+				return r
+			}
+		}
 	case *ssa.BinOp:
 		if x.Op == token.EQL || x.Op == token.NEQ {
 			eq := -1
@@ -759,6 +765,60 @@ func (ev *eofEval) evalCond(v ssa.Value, depth int) int {
 		}
 		if res >= 0 {
 			return res
+		}
+	}
+	return -1
+}
+
+// evalPredicate: the result of a side-effect-free boolean method under cur=peek=tok (-1: undetermined). The
+// function is executed block by block; phis are resolved by the edge taken.
+func (ev *eofEval) evalPredicate(fn *ssa.Function, depth int) int {
+	if fn.Blocks == nil || fn.Signature.Results().Len() != 1 {
+		return -1
+	}
+	// only calls and control flow: no store, no map update
+	pure := true
+	eachInstr(fn, func(in ssa.Instruction) {
+		switch in.(type) {
+		case *ssa.Store, *ssa.MapUpdate, *ssa.Send, *ssa.Go, *ssa.Defer, *ssa.Panic:
+			pure = false
+		}
+	})
+	if !pure {
+		return -1
+	}
+	blk, prev := fn.Blocks[0], (*ssa.BasicBlock)(nil)
+	resolve := func(v ssa.Value) ssa.Value {
+		if phi, ok := v.(*ssa.Phi); ok && phi.Block() == blk && prev != nil {
+			for i, p := range blk.Preds {
+				if p == prev {
+					return phi.Edges[i]
+				}
+			}
+		}
+		return v
+	}
+	for steps := 0; steps < 100; steps++ {
+		last := blk.Instrs[len(blk.Instrs)-1]
+		switch x := last.(type) {
+		case *ssa.If:
+			r := ev.evalCond(resolve(x.Cond), depth+1)
+			if r < 0 {
+				return -1
+			}
+			prev = blk
+			if r == 1 {
+				blk = blk.Succs[0]
+			} else {
+				blk = blk.Succs[1]
+			}
+		case *ssa.Jump:
+			prev = blk
+			blk = blk.Succs[0]
+		case *ssa.Return:
+			return ev.evalCond(resolve(x.Results[0]), depth+1)
+		default:
+			return -1
 		}
 	}
 	return -1
